@@ -15,14 +15,21 @@ def build_impl(case):
     return Circuit(comps), comps
 
 
-def impl_transform(case, w, res):
+def impl_transform(case, w, res, via_list=False):
+    """transform_circuit(circuit, w, res), or the list variant transform(circuit, [w0, w], w_resolution=res)[1]"""
     try:
         circuit, comps = build_impl(case)
     except Exception as e:  # noqa: BLE001
         return {'exc': type(e).__name__, 'stage': 'construct', 'msg': str(e)[:200]}, None
-    from CircuitCalculator.Circuit.circuit import transform_circuit
+    from CircuitCalculator.Circuit.circuit import transform_circuit, transform
     try:
-        net = transform_circuit(circuit, w, res)
+        if via_list:
+            nets = transform(circuit, [w + 1.0, w], w_resolution=res)
+            if len(nets) != 2:
+                return {'exc': 'WrongNumberOfNetworks', 'stage': 'transform'}, comps
+            net = nets[1]
+        else:
+            net = transform_circuit(circuit, w, res)
         return {'net': netgen.network_to_case(net)}, comps
     except Exception as e:  # noqa: BLE001
         return {'exc': type(e).__name__, 'stage': 'transform', 'msg': str(e)[:200]}, comps
